@@ -211,7 +211,8 @@ pub fn anchors_of(m: &Melda) -> BTreeSet<String> {
 }
 
 pub fn to_delta_ids(s: &BTreeSet<String>) -> BTreeSet<DeltaId> {
-    s.iter().map(|x| DeltaId::from(x).unwrap()).collect()
+    // (an identifier the library printed but cannot parse back is left out here; C13 reports it)
+    s.iter().filter_map(|x| DeltaId::from(x).ok()).collect()
 }
 
 impl World {
@@ -817,7 +818,10 @@ pub fn block_graph(m: &Melda) -> Value {
     let st = m.verif_delta_status();
     let mut g = Map::new();
     for (id, status) in st {
-        let did = DeltaId::from(&id).unwrap();
+        let Ok(did) = DeltaId::from(&id) else {
+            g.insert(id, json!("identifier-does-not-parse-back"));
+            continue;
+        };
         let d = match call("get_delta", || m.get_delta(&did)) {
             Ok(Ok(Some(d))) => json!({
                 "parents": d.parents.map(|p| p.iter().map(|x| x.to_string()).collect::<Vec<_>>()),
